@@ -70,6 +70,36 @@ def task(t):
 
 K_ALL = [False]
 
+DIAG_HEAD = '(set-option :produce-models true)(set-logic QF_LRA)(declare-fun x () Real)(declare-fun q () Bool)'
+
+
+def diag_task(t):
+    """every command of C18's alphabet (valid and invalid forms: each provokes one of the interpreter's responses or
+    error messages) alone, after a valid header, and (thorough) every ordered pair after the header"""
+    from . import chk_crash
+    pairs, start, step = t
+    res = core.new_result(); cov = res['cov']
+    exe = os.path.join(runner.BUILD_ROOT, 'rel', 'opensmt')
+    fn = os.path.join(runner.scratch(), 'reprod_%d.smt2' % os.getpid())
+    cmds = chk_crash.CMDS + ['(set-option :random-seed 0)', '(set-option :nosuch 1)', '(get-option :nosuch)', '(declare-fun x () Real)', '(assert (+ x q))', '(get-value ((* x x)))']
+    scripts = [c for c in cmds] + [DIAG_HEAD + c for c in cmds]
+    if pairs: scripts += [DIAG_HEAD + a + b for a in cmds for b in cmds]
+    envs = ENVS if K_ALL[0] else [ENVS[0], ENVS[1], ENVS[3], ENVS[4]]
+    for script in scripts[start::step]:
+        with open(fn, 'w') as f: f.write(script)
+        obs = [run_env(exe, fn, e) for e in envs]
+        cov['executions'] += len(envs); cov['scripts'] += 1
+        res['distinct'].append(('diag', script))
+        if any(o[0] == 'timeout' for o in obs): cov['timeouts'] += 1; continue
+        if len(set(obs)) > 1:
+            diff = [envs[i][0] for i in range(len(envs)) if obs[i] != obs[0]]
+            rec = {'logic': 'QF_LRA', 'family': 'diagnostics', 'options': [], 'symptom': 'nondeterministic', 'site': 'diagnostics', 'input_class': 'command_responses',
+                   'what': 'environments %s differ from %s; first: %r / other: %r' % (diff, envs[0][0], obs[0][1][:120], next(o for o in obs if o != obs[0])[1][:120])}
+            res['violations'].append((rec, script, 'smt2'))
+    try: os.unlink(fn)
+    except OSError: pass
+    return res
+
 
 def run(prop, tier):
     chk = core.Check('C23', tier, 'exploration',
@@ -82,11 +112,13 @@ def run(prop, tier):
     if not shutil.which('setarch'): raise RuntimeError('setarch not available')
     K_ALL[0] = tier == 'thorough'
     n = 4
-    mf = list(F.LOGICS_MODELS)
+    mf = list(F.LOGICS_MODELS) if tier == 'thorough' else [f for f in F.LOGICS_MODELS if f in ('PROP', 'QF_UF', 'QF_LRA', 'QF_LIA', 'QF_IDL', 'QF_UFLRA', 'QF_UFLIA')]
     pf = ['PROP', 'QF_UF', 'QF_LRA', 'QF_LIA']
     sz = -2 if tier == 'quick' else 2
+    chk.run_stage('responses and error messages of every command form (alone and after a valid header%s)' % ('; all ordered pairs' if tier == 'thorough' else ''),
+                  [(tier == 'thorough', s, 16) for s in range(16)], diag_task)
     chk.run_stage('models/values, model-producing families', [(f, sz, 'models', (), s, n) for f in mf for s in range(n)], task)
     chk.run_stage('cores and proofs', [(f, sz, m, (), s, n) for f in pf for m in ('cores', 'proofs') for s in range(n)], task)
     chk.run_stage('interpolants', [(f, sz, 'itp', (), s, n) for f in pf[1:] for s in range(n)], task)
-    chk.run_stage('random seed 7, models', [(f, sz, 'models', ('seed7',), s, n) for f in pf for s in range(n)], task)
+    chk.run_stage('random seed 7, models', [(f, sz, 'models', ('seed7',), s, n) for f in (pf if tier == 'thorough' else pf[2:]) for s in range(n)], task)
     return chk.finish()
